@@ -395,3 +395,84 @@ def a_list_holds_references_not_copies(flag):
     xs[0].error_message = "changed"
     ys = list(xs)
     return xs[1].error_message == "changed" and ys[0] is a and len(ys) == 2
+
+
+# --- coroutines, closures, exceptions with attributes ----------------------------------------------------------------------
+import asyncio  # noqa: E402
+
+
+@lemma(dict(a=Int(-3, 3), b=Int(-3, 3)), prop=["ENGINE"])
+async def gather_returns_results_in_argument_order(a, b):
+    async def one(x):
+        return x + 1
+
+    async def two(x, y):
+        return x - y
+    r = await asyncio.gather(one(a), two(a, b), one(b))
+    single = await one(7)
+    return r == [a + 1, a - b, b + 1] and single == 8
+
+
+@lemma(dict(a=Int(-3, 3), b=Int(-3, 3)), prop=["ENGINE"])
+async def an_exception_inside_a_gathered_coroutine_propagates(a, b):
+    async def may_fail(x):
+        if x > b:
+            raise ValueError("too big")
+        return x
+    try:
+        r = await asyncio.gather(may_fail(a), may_fail(b))
+    except ValueError:
+        return a > b
+    return a <= b and r == [a, b]
+
+
+@lemma(dict(a=Int(-3, 3), b=Int(-3, 3)), prop=["ENGINE"])
+def closures_see_the_current_value_of_outer_variables(a, b):
+    x = a
+
+    def get():
+        return x
+    before = get()
+    x = b
+    after = get()
+    return before == a and after == b
+
+
+@lemma(dict(a=Int(-3, 3)), prop=["ENGINE"])
+def exception_objects_carry_their_arguments(a):
+    try:
+        if a > 0:
+            raise ValueError("positive")
+        raise KeyError("other")
+    except ValueError as e:
+        return a > 0 and e.args[0] == "positive"
+    except KeyError as e:
+        return a <= 0 and e.args[0] == "other"
+
+
+@lemma(dict(a=Int(-3, 3)), prop=["ENGINE"])
+def try_else_runs_only_without_exception_and_reraise_keeps_the_exception(a):
+    log = []
+
+    def f():
+        try:
+            if a > 0:
+                raise ValueError("v")
+        except ValueError:
+            log.append("handler")
+            raise
+        else:
+            log.append("else")
+        return 1
+    try:
+        r = f()
+    except ValueError:
+        return a > 0 and log == ["handler"]
+    return a <= 0 and r == 1 and log == ["else"]
+
+
+@lemma(dict(s=Str(), t=Str(), x=Enum("ModalMark")), prop=["ENGINE"])
+def join_and_fstrings(s, t, x):
+    joined = ", ".join([s, t])
+    return joined == s + ", " + t and f"[{s}]" == "[" + s + "]" and ", ".join([s]) == s and "".join([]) == ""
+
